@@ -236,7 +236,7 @@ _u6 = UNITS["U6"]
 _u7_old = UNITS["U7"]
 _extra_types = [("struct", "compress.rs", "CompressedNameResult"), ("consts", "compress.rs", ["MAX_SUFFIX_LEN", "MAX_SUFFIXES"]),
                 ("struct", "compress.rs", "Suffix", ["pubfields"]), ("struct", "compress.rs", "SuffixDict", ["pubfields", "Default"]),
-                ("traitimpl", "compress.rs", "Default for Suffix", "*"), ("file", "spec/rename.rs"), ("file", "spec/dict.rs"), ("file", "spec/ptr.rs")]
+                ("traitimpl", "compress.rs", "Default for Suffix", "*"), ("file", "spec/rename.rs"), ("file", "spec/dict.rs"), ("file", "spec/ptr.rs"), ("file", "spec/cacc.rs")]
 _parts = []
 for _p in _u6["parts"]:
     _parts.append(_p)
